@@ -31,6 +31,57 @@ def byte_matches(fn):
     return out
 
 
+
+def rule_utf8_sync(facts, rid):
+    """standard input and file arguments read every format the same way with respect to UTF-8"""
+    t5 = Rule(rid, "input bytes are validated as UTF-8 exactly for the formats whose parser is handed the text (`s`): the JSON family is parsed from the bytes and must not be "
+              "pre-validated (a JSON text string may contain invalid UTF-8; validating it would reject, for file arguments only, what standard input and fromjson accept)", floor=9)
+    fm = adt_variants(facts, "jaq_fmts::Format") or []
+    bs = facts.hir_find(r"^jaq_fmts::read::(formats::)?bytes_str$", "jaq_fmts")
+    prs = [f_ for f_ in facts.hir_find(r"^jaq_fmts::read::(formats::)?(parse|read)$", "jaq_fmts")]
+    if len(bs) != 1 or not prs or not fm:
+        t5.missing_anchor("jaq_fmts::read::bytes_str / parse / read / Format")
+    else:
+        def fmt_match(fn):
+            ms_ = [m_ for m_ in find(fn["body"], lambda n: n.get("k") == "Match" and n.get("src") == "Normal" and "jaq_fmts::Format" in n.get("scrut_ty", ""))]
+            return ms_[0] if ms_ else None
+        mb = fmt_match(bs[0])
+        validated = set()
+        if mb is None:
+            t5.missing_anchor("match on the format in bytes_str")
+        else:
+            for name, nf in fm:
+                cs_ = [c_ for c_ in candidates(mb["arms"], C(f"jaq_fmts::Format::{name}")) if c_[1] == "sure"]
+                if cs_ and any(c_.endswith("str::converts::from_utf8") or c_.endswith("::from_utf8") for c_ in callees(mb["arms"][cs_[-1][0]]["body"])):
+                    validated.add(name)
+            for fn in prs:
+                mp = fmt_match(fn)
+                sid = None
+                for p_ in fn["params"]:
+                    for b_ in find(p_, lambda n: n.get("k") == "Bind"):
+                        if (b_.get("ty") or "").replace("'a ", "").replace("'_ ", "") in ("&str", "&'a str") or (b_.get("ty") or "").endswith("str") and (b_.get("ty") or "").startswith("&"):
+                            sid = b_["id"]
+                if mp is None or sid is None:
+                    t5.missing_anchor(f"match on the format / text parameter in {fn['def']}")
+                    continue
+                for name, nf in fm:
+                    uses = False
+                    for i_, kind_ in candidates(mp["arms"], C(f"jaq_fmts::Format::{name}")):
+                        a_ = mp["arms"][i_]
+                        if find([a_["body"], a_.get("guard")], lambda n: n.get("k") == "Path" and n["path"].get("id") == sid):
+                            uses = True
+                    t5.examined((fn["def"].split("::")[-1], name), True, {"fn": fn["def"].split("::")[-1], "format": name, "parser_takes_text": uses, "validated_as_utf8": name in validated})
+                    # a format that is parsed from the bytes must not be read through a UTF-8 validating reader either
+                    arm_calls = []
+                    for i_, kind_ in candidates(mp["arms"], C(f"jaq_fmts::Format::{name}")):
+                        arm_calls += callees_inlined(facts, [mp["arms"][i_]["body"], mp["arms"][i_].get("guard")])
+                    utf8_readers = sorted({c_ for c_ in arm_calls if re.search(r"read_to_string$|str::converts::from_utf8$|String::from_utf8$|^std::io::BufRead::lines$", c_)})
+                    if name not in validated and utf8_readers:
+                        t5.violate(f"reader/{name}", f"format {name} (parsed from the bytes) is read through {utf8_readers} in `{fn['def'].split('::')[-1]}`: input that is not valid UTF-8 is rejected on this path only (standard input and file arguments disagree)", where=fn["sp"])
+                    if uses != (name in validated):
+                        t5.violate(f"sync/{name}", f"format {name}: " + ("its parser is handed the text but the bytes are not validated as UTF-8" if uses else "the bytes are validated as UTF-8 although its parser reads the bytes themselves: input that standard input and the from* filter accept is rejected for file arguments"), where=bs[0]["sp"])
+    return t5
+
 def run(facts, tier):
     t0 = time.time()
     rules = []
@@ -221,53 +272,7 @@ def run(facts, tier):
     rules.append(t4.finish())
 
     # ---------------- T7.5 the bytes-to-text pre-check is synchronised with the per-format parsers
-    t5 = Rule("T7.5", "input bytes are validated as UTF-8 exactly for the formats whose parser is handed the text (`s`): the JSON family is parsed from the bytes and must not be "
-              "pre-validated (a JSON text string may contain invalid UTF-8; validating it would reject, for file arguments only, what standard input and fromjson accept)", floor=9)
-    fm = adt_variants(facts, "jaq_fmts::Format") or []
-    bs = facts.hir_find(r"^jaq_fmts::read::(formats::)?bytes_str$", "jaq_fmts")
-    prs = [f_ for f_ in facts.hir_find(r"^jaq_fmts::read::(formats::)?(parse|read)$", "jaq_fmts")]
-    if len(bs) != 1 or not prs or not fm:
-        t5.missing_anchor("jaq_fmts::read::bytes_str / parse / read / Format")
-    else:
-        def fmt_match(fn):
-            ms_ = [m_ for m_ in find(fn["body"], lambda n: n.get("k") == "Match" and n.get("src") == "Normal" and "jaq_fmts::Format" in n.get("scrut_ty", ""))]
-            return ms_[0] if ms_ else None
-        mb = fmt_match(bs[0])
-        validated = set()
-        if mb is None:
-            t5.missing_anchor("match on the format in bytes_str")
-        else:
-            for name, nf in fm:
-                cs_ = [c_ for c_ in candidates(mb["arms"], C(f"jaq_fmts::Format::{name}")) if c_[1] == "sure"]
-                if cs_ and any(c_.endswith("str::converts::from_utf8") or c_.endswith("::from_utf8") for c_ in callees(mb["arms"][cs_[-1][0]]["body"])):
-                    validated.add(name)
-            for fn in prs:
-                mp = fmt_match(fn)
-                sid = None
-                for p_ in fn["params"]:
-                    for b_ in find(p_, lambda n: n.get("k") == "Bind"):
-                        if (b_.get("ty") or "").replace("'a ", "").replace("'_ ", "") in ("&str", "&'a str") or (b_.get("ty") or "").endswith("str") and (b_.get("ty") or "").startswith("&"):
-                            sid = b_["id"]
-                if mp is None or sid is None:
-                    t5.missing_anchor(f"match on the format / text parameter in {fn['def']}")
-                    continue
-                for name, nf in fm:
-                    uses = False
-                    for i_, kind_ in candidates(mp["arms"], C(f"jaq_fmts::Format::{name}")):
-                        a_ = mp["arms"][i_]
-                        if find([a_["body"], a_.get("guard")], lambda n: n.get("k") == "Path" and n["path"].get("id") == sid):
-                            uses = True
-                    t5.examined((fn["def"].split("::")[-1], name), True, {"fn": fn["def"].split("::")[-1], "format": name, "parser_takes_text": uses, "validated_as_utf8": name in validated})
-                    # a format that is parsed from the bytes must not be read through a UTF-8 validating reader either
-                    arm_calls = []
-                    for i_, kind_ in candidates(mp["arms"], C(f"jaq_fmts::Format::{name}")):
-                        arm_calls += callees_inlined(facts, [mp["arms"][i_]["body"], mp["arms"][i_].get("guard")])
-                    utf8_readers = sorted({c_ for c_ in arm_calls if re.search(r"read_to_string$|str::converts::from_utf8$|String::from_utf8$|^std::io::BufRead::lines$", c_)})
-                    if name not in validated and utf8_readers:
-                        t5.violate(f"reader/{name}", f"format {name} (parsed from the bytes) is read through {utf8_readers} in `{fn['def'].split('::')[-1]}`: input that is not valid UTF-8 is rejected on this path only (standard input and file arguments disagree)", where=fn["sp"])
-                    if uses != (name in validated):
-                        t5.violate(f"sync/{name}", f"format {name}: " + ("its parser is handed the text but the bytes are not validated as UTF-8" if uses else "the bytes are validated as UTF-8 although its parser reads the bytes themselves: input that standard input and the from* filter accept is rejected for file arguments"), where=bs[0]["sp"])
-    rules.append(t5.finish())
+    rules.append(rule_utf8_sync(facts, "T7.5").finish())
 
     explanation = ("Round-trip equality for all values is value-level (and half of it lives in the third-party lexer hifijson): not decided. Decided as constant tables extracted from the macro-expanded typed HIR: "
                    "the 256-row escape tables of the three writers, the numeric escape per string kind in writer and reader, decimals kept as text, identical spelling of special values and keywords, insertion-ordered objects.")
